@@ -285,7 +285,8 @@ func (c *FnCtx) sortOf(t types.Type) string {
 			return "Slice"
 		}
 		if u.Kind() == types.UnsafePointer {
-			c.unsup("unsafe.Pointer")
+			// an opaque reference value; conversions to and from it stay unsupported (evalInstr refuses them)
+			return "Int"
 		}
 		c.decl("(declare-sort Opaque 0)")
 		return "Opaque"
@@ -346,6 +347,9 @@ func (c *FnCtx) zero(t types.Type) string {
 		}
 		if u.Kind() == types.String {
 			return "(mk_slice 0 " + c.mode.idxLit(0) + " " + c.mode.idxLit(0) + " " + c.mode.idxLit(0) + ")"
+		}
+		if u.Kind() == types.UnsafePointer {
+			return "0"
 		}
 		c.sortOf(t)
 		c.decl("(declare-const opaque_zero Opaque)")
